@@ -21,6 +21,8 @@ pub fn reject_registration(Ghost(justified): Ghost<bool>) -> !
 
 /// router.rs: route_path_to_segments (splits a path TEMPLATE at '/', dropping empty pieces) and
 /// PathSegment::from (`{name}` / `{name:.*}` / literal) are string code out of Verus's reach: uninterpreted functions
+/// (unit V12 verifies the real route_path_to_segments: template_of(path) is the sequence of pieces between slashes after
+/// the leading one, without a trailing empty piece, each non-empty; malformed templates are refused by a panic)
 pub uninterp spec fn template_of(path: Seq<char>) -> Seq<Seq<char>>;
 pub open spec fn texts(s: Seq<&str>) -> Seq<Seq<char>> { Seq::new(s.len(), |i: int| s[i]@) }
 #[verifier::external_body]
